@@ -38,12 +38,6 @@ using vr::fmt;
 
 namespace {
 
-std::string tmp_name(const std::string &stem) {
-  const char *d = getenv("VERIF_TMP");
-  return std::string(d ? d : ".") + "/c20_" + std::to_string((long)getpid()) +
-         "_" + stem;
-}
-
 // =========================================================== (a1) YAML trees
 // name alphabet: everything except ':' '#' and line ends; characters that sort
 // below ':' (blank ! - . / digits) and above it (; letters ~ bytes >= 0x80)
